@@ -131,6 +131,15 @@ func ParseContractText(text, path, pkg string, extern bool) ([]*Block, error) {
 			last = nil
 			continue
 		}
+		if word == "final" {
+			// "final <heap key>": the field is assigned only where its struct is
+			// created (checked over the SSA of the whole repository: obligation
+			// kind "final"), so no call and no loop changes it
+			blocks = append(blocks, &Block{Kind: "final", Pkg: pkg, Header: rest, Loops: map[int]*LoopSpec{}, Flags: map[string]string{}, File: path, Line: i + 1, Extern: extern})
+			cur = nil
+			last = nil
+			continue
+		}
 		if word == "use" {
 			blocks = append(blocks, &Block{Kind: "use", Pkg: pkg, Header: rest, Loops: map[int]*LoopSpec{}, Flags: map[string]string{}, File: path, Line: i + 1, Extern: extern})
 			cur = nil
